@@ -100,13 +100,65 @@ pub fn output_diff_unified(old: &str, new: &str) -> Result<Option<Vec<u8>>> {
         return Ok(None);
     }
 
+    // `similar` computes a hunk header from the index fields of the hunk's first and last operation, and its
+    // compaction pass can leave the index of the side an operation does not touch (an insertion's old index, a
+    // deletion's new index) stale. The header then disagrees with the hunk body and `patch` rejects the diff as
+    // malformed. Give every operation its running position before the hunks are built.
     let mut buffer = Vec::new();
-    write!(
-        &mut buffer,
-        "{}",
-        text_diff.unified_diff().header("old", "new")
-    )?;
+    let mut header_written = false;
+    for group in similar::group_diff_ops(renumber_ops(text_diff.ops()), 3) {
+        if group.is_empty() {
+            continue;
+        }
+        if !header_written {
+            writeln!(&mut buffer, "--- old")?;
+            writeln!(&mut buffer, "+++ new")?;
+            header_written = true;
+        }
+        write!(
+            &mut buffer,
+            "{}",
+            similar::udiff::UnifiedDiffHunk::new(group, &text_diff, true)
+        )?;
+    }
     Ok(Some(buffer))
+}
+
+/// The same edit script with every operation's `old_index` / `new_index` set to the position the operations
+/// before it lead to.
+fn renumber_ops(ops: &[DiffOp]) -> Vec<DiffOp> {
+    let (mut old_index, mut new_index) = (0, 0);
+    ops.iter()
+        .map(|op| {
+            let (old_len, new_len) = (op.old_range().len(), op.new_range().len());
+            let renumbered = match op {
+                DiffOp::Equal { len, .. } => DiffOp::Equal {
+                    old_index,
+                    new_index,
+                    len: *len,
+                },
+                DiffOp::Delete { .. } => DiffOp::Delete {
+                    old_index,
+                    old_len,
+                    new_index,
+                },
+                DiffOp::Insert { .. } => DiffOp::Insert {
+                    old_index,
+                    new_index,
+                    new_len,
+                },
+                DiffOp::Replace { .. } => DiffOp::Replace {
+                    old_index,
+                    old_len,
+                    new_index,
+                    new_len,
+                },
+            };
+            old_index += old_len;
+            new_index += new_len;
+            renumbered
+        })
+        .collect()
 }
 
 #[derive(Serialize)]
